@@ -10,4 +10,7 @@ find . -name '*.v' | sed 's|^\./||' | sort > ../build/.vfiles.$$ 2>/dev/null || 
 rm -f ../build/.vfiles.$$
 coq_makefile -f _CoqProject -o Makefile
 TARGETS=$(/venv/bin/python ../tools/targets.py)
-timeout 3000 make -j16 $TARGETS
+# -k: a development whose proofs do not go through on the model generated from this tree must not keep the
+# others from being built; the check of the property concerned rebuilds its own closure and reports it
+timeout 3000 make -k -j16 $TARGETS || echo "setup: some targets did not build; the checks concerned report them"
+exit 0
